@@ -117,12 +117,25 @@ def cases(tier, seed, info):
 
 # ---------------------------------------------------------------------------
 
+def _spell(o):
+    """the chosen severity groups as a user may name them: in any order, some of them twice"""
+    sevs = list(o['sevs'])
+    if not sevs:
+        return sevs
+    h = sum(sevs) * 7 + len(sevs) + 2 * o['only'] + 3 * o['hid'] + 5 * o['nsv']
+    if h % 3 == 1:
+        sevs = sevs[::-1]
+    if h % 2 == 0:
+        sevs = sevs + [sevs[0]] + ([sevs[-1], sevs[0]] if h % 4 == 0 else [])
+    return sevs
+
+
 def _config(o):
     from pel.peltool.config import Config
     c = Config()
     c.every_pel, c.serviceable, c.non_serviceable = o['every'], o['sv'], o['nsv']
     c.hidden, c.critSysTerm, c.only = o['hid'], o['term'], o['only']
-    c.severities = list(o['sevs'])
+    c.severities = _spell(o)
     lk = o['lookup']
     if lk == 'plid':
         c.plid = '0x50000001'
@@ -206,7 +219,7 @@ def _argv(o, mode, d, target=None):
           'srcExclude': ['--src-exclude', os.path.join(os.path.dirname(d), 'c07_exclude.txt')]}[mode]
     if o['sevs']:
         # -S is nargs='+': keep it last
-        a += ['-S'] + [GROUP_NAMES[g] for g in o['sevs']]
+        a += ['-S'] + [GROUP_NAMES[g] for g in _spell(o)]
     return a
 
 
